@@ -156,8 +156,15 @@ pub fn gen_unsigned(g: &mut Rng, features: &mut Vec<&'static str>) -> RawRequest
         pairs.push((tail.to_owned(), String::new()));
     }
     let nq = g.usize_below(4);
+    // half of the requests draw their names from one family in which a name is a proper prefix of another and goes on
+    // with a character that sorts on either side of '=' and '&' (sorting "name=value" strings is not sorting by name)
+    let family = g.chance(1, 2);
+    const FAMILY: &[&str] = &["tag", "tag-set", "tag.x", "tag1", "tag10", "tag x", "tag=", "tag\u{e9}", "tagA", "tag~", "tag%", "tag&a", "ta", "t", "tag!", "tag+", "tag/"];
     for _ in 0..nq {
-        let name = format!("x{}{}", pairs.len(), gen_q(g));
+        let name = if family { (*g.pick(FAMILY)).to_owned() } else { format!("x{}{}", pairs.len(), gen_q(g)) };
+        if family && pairs.iter().any(|p| p.0 == name) {
+            continue;
+        }
         let val = if g.chance(1, 4) { String::new() } else { gen_q(g) };
         pairs.push((name, val));
     }
@@ -225,6 +232,18 @@ pub fn gen_unsigned(g: &mut Rng, features: &mut Vec<&'static str>) -> RawRequest
             req.headers.push((name, g.alnum_upto(1, 5).into_bytes()));
             features.push("repeated-header-name");
         }
+    }
+    // now and then a request with dozens of header lines (sorting networks / small-slice paths of a sort stop at a few
+    // dozen elements), several of them repeating a name with different values
+    if g.chance(1, 10) {
+        let n = 25 + g.usize_below(60);
+        let pool = 3 + g.usize_below(n / 2);
+        for _ in 0..n {
+            let name = format!("{}-m{}", *g.pick(&["x-verif", "X-Verif", "x-amz-meta"]), g.usize_below(pool));
+            req.headers.push((name, g.alnum_upto(1, 6).into_bytes()));
+        }
+        features.push("many-header-lines");
+        features.push("repeated-header-name");
     }
     if method == "PUT" || method == "POST" {
         let n = *g.pick(&[0usize, 0, 1, 17, 300, 2048, 65_536]);
